@@ -26,6 +26,21 @@ Prod2(p, q, len, n) == [k \in 1..len |-> ProdCoef(p, q, k - 1, n)]
 \* coefficient k of p*q modulo X^size - 1 (Len(p), Len(q) <= size): sum over i + j == k (mod size)
 CyclicCoef(p, q, size, k, n) == SumMod(p, q, LAMBDA i : (k - i + size) % size, n)
 
+\* Large transforms (beyond what the sums above can be recomputed for): two operand families whose cyclic
+\* product has a closed form with a handful of terms.
+\* (1) operands of period 2 over the whole transform: p_i = pv[(i % 2) + 1], q_j = qv[(j % 2) + 1], size even.
+\*     In c_k = sum_i p_i q_(k-i) the index k - i has the parity of k for even i and the other one for odd i.
+Periodic2Coef(pv, qv, size, k, n) ==
+  Mod(Mul(FromInt(size \div 2), Add(Mul(pv[1], qv[(k % 2) + 1]), Mul(pv[2], qv[((k + 1) % 2) + 1]))), n)
+\* (2) sparse operands given as (position, value) pairs (positions distinct, < size): only the pairs with
+\*     pos + pos' == k (mod size) contribute
+SparseCyclicCoef(ap, bp, size, k, n) ==
+  Mod(FoldLeft(LAMBDA s, x : FoldLeft(LAMBDA s2, y : IF (x[1] + y[1]) % size = k THEN Add(s2, Mul(x[2], y[2])) ELSE s2, s, bp),
+               Zero, ap), n)
+\* the dense operands those descriptions stand for (used by the equivalence model PolyBigMC.tla)
+ExpandPeriodic2(pv, size) == [i \in 1..size |-> pv[((i - 1) % 2) + 1]]
+ExpandSparse(ap, size) == [i \in 1..size |-> LET m == SelectSeq(ap, LAMBDA x : x[1] = i - 1) IN IF m = <<>> THEN Zero ELSE m[1][2]]
+
 \* middle product of p (2m-1 coefficients) by q (m coefficients): coefficients m-1 .. 2m-2 of p*q
 Middle(p, q, n) == LET m == Len(q) IN [t \in 1..m |-> ProdCoef(p, q, m - 1 + t - 1, n)]
 
